@@ -13,10 +13,10 @@ Definition window_consumed (w : wm) (n : Z) : wm * res unit :=
   let c := wm_cur w - n in
   (mkwm (wm_max w) c (wm_bp w), if c <? 0 then fc_err else Ok tt).
 
-(* The addition happens before the overflow check (D10). *)
+(* The overflow check comes first: a raising call changes nothing. *)
 Definition window_opened (w : wm) (n : Z) : wm * res unit :=
   let c := wm_cur w + n in
-  if c >? LARGEST_FLOW_CONTROL_WINDOW then (mkwm (wm_max w) c (wm_bp w), fc_err)
+  if c >? LARGEST_FLOW_CONTROL_WINDOW then (w, fc_err)
   else (mkwm (Z.max (wm_max w) c) c (wm_bp w), Ok tt).
 
 (* [None]: nothing processed yet.  [Some 0]: no update due. *)
